@@ -30,6 +30,9 @@ def _raise(cls, *args):
     return RaiseSig(ExcVal(cls, args))
 
 
+OPAQUE_CALL = {}       # opaque sort name -> fn(I, sym, args) for calling a value of that sort
+
+
 class Model:
     def __init__(self, fn, name=None):
         self.fn = fn
@@ -1332,6 +1335,13 @@ def _minmax(I, args, kwargs, node, ismax):
         items = list(args)
     if not items:
         raise _raise(ValueError)
+    if key is None and all(is_int(x) for x in items) and any(isinstance(x, Sym) for x in items):
+        # integers: an if-then-else term instead of a path split
+        best = lift(items[0])
+        for x in items[1:]:
+            xe = lift(x)
+            best = z3.If(xe > best, xe, best) if ismax else z3.If(xe < best, xe, best)
+        return mk_int(best)
     best = items[0]
     bk = I.call(key, [best], {}, node) if key else best
     for x in items[1:]:
